@@ -255,27 +255,30 @@ Print Assumptions C12_uid_gid_example.
 
 (* ---- assert-enabled builds: uv__close(fd <= 2) --------------------------- *)
 
-(* uv_spawn closes the error pipe's write end and the child's end of every
-   UV_CREATE_PIPE pair with uv__close(), which asserts fd > STDERR_FILENO
-   (core.c).  Full statement "uv_spawn never trips that assertion": false. *)
-Theorem C12_spawn_no_assert_refuted :
-  ~ (forall sp wo, (forall c, In c (s_stdio sp) -> c <> SBad) -> s_sp_fail sp = None ->
-       r_trip (fst (uv_spawn sp wo)) = false).
-Proof.
-  intros H. specialize (H closed_stdio_spec [] ltac:(intros c []) eq_refl).
-  destruct closed_stdio_trips as (T & _). rewrite T in H. discriminate.
-Qed.
-Print Assumptions C12_spawn_no_assert_refuted.
-
-(* what holds: with 0, 1 and 2 open in the parent every descriptor uv_spawn
-   creates is >= 3 and no assertion can trip, on any path *)
-Theorem C12_spawn_no_assert_partial :
-  forall sp wo,
-  (forall c, In c (s_stdio sp) -> c <> SBad) -> s_sp_fail sp = None ->
-  get (s_tbl sp) 0 <> None /\ get (s_tbl sp) 1 <> None /\ get (s_tbl sp) 2 <> None ->
-  r_trip (fst (uv_spawn sp wo)) = false.
+(* uv__close() asserts fd > STDERR_FILENO (core.c).  For every parent table -
+   any subset of {0,1,2} closed - every stdio list and every path, no
+   descriptor that uv_spawn closes in the parent goes through the checking
+   uv__close(): no assertion trips inside uv_spawn (full since /repo 298b4fa). *)
+Theorem C12_spawn_no_assert :
+  forall sp wo, r_trip (fst (uv_spawn sp wo)) = false.
 Proof. exact spawn_no_trip. Qed.
-Print Assumptions C12_spawn_no_assert_partial.
+Print Assumptions C12_spawn_no_assert.
+
+(* the former failing inputs (0 and 1 closed with no stdio: the error pipe is
+   0/1; 0,1,2 closed with a UV_CREATE_PIPE slot: the pair is 0/1) on the repaired
+   model - the spawn succeeds, the stream of the second gets descriptor 0 -
+   together with the history: the code before 298b4fa tripped on both. *)
+Example C12_spawn_closed_stdio_examples :
+  trip_unfixed closed_stdio_spec = true /\
+  trip_unfixed closed_stdio_pipe_spec = true /\
+  r_trip (fst (uv_spawn closed_stdio_spec [])) = false /\
+  r_ret (fst (uv_spawn closed_stdio_spec [])) = 0%Z /\
+  r_active (fst (uv_spawn closed_stdio_spec [])) = true /\
+  r_trip (fst (uv_spawn closed_stdio_pipe_spec [])) = false /\
+  r_ret (fst (uv_spawn closed_stdio_pipe_spec [])) = 0%Z /\
+  r_streams (fst (uv_spawn closed_stdio_pipe_spec [])) = [(0, 0)].
+Proof. exact closed_stdio_now. Qed.
+Print Assumptions C12_spawn_closed_stdio_examples.
 
 (* ---- the caller's signal mask ------------------------------------------- *)
 
